@@ -72,6 +72,17 @@ def classify(diags, g):
             undecided.append('%s [%s]' % (msg, fnname))
             continue
         if not any(s in msg for s in SEMANTIC):
+            # a compile error located on a spliced HINT line (e.g. the hint names a local that was
+            # renamed) is treated like a failing hint: the runner drops the hint and tries again
+            hint = None
+            for sp in d.get('spans', []):
+                ln = sp['line_start'] - 1
+                if 0 <= ln < len(g.map) and g.map[ln].get('kind') == 'clause' and g.map[ln].get('role') == 'hint' and sp.get('is_primary'):
+                    hint = g.map[ln]
+            if hint is not None:
+                failures.append(dict(kind='hint', clause=hint['clause'], tags=list(hint.get('tags') or []), role='hint', fn=hint.get('fn'),
+                                     message='hint does not compile: ' + msg, rendered=d.get('rendered', '')))
+                continue
             undecided.append('tool/compile error: %s' % (d.get('rendered') or msg)[:600])
             continue
         spans = d.get('spans', [])
